@@ -746,10 +746,13 @@ class ConditionalEventSequenceEncoderDecoder(object):
     Returns:
       An input vector, a list of floats.
     """
+    # Some encoders return numpy arrays, for which `+` is element-wise addition
+    # rather than concatenation.
     return (
-        self._control_encoder_decoder.events_to_input(
-            control_events, position + 1) +
-        self._target_encoder_decoder.events_to_input(target_events, position))
+        list(self._control_encoder_decoder.events_to_input(
+            control_events, position + 1)) +
+        list(self._target_encoder_decoder.events_to_input(
+            target_events, position)))
 
   def events_to_label(self, target_events, position):
     """Returns the label for the given position in the target event sequence.
